@@ -374,6 +374,34 @@ def chain_cases(tier, rng):
                     out.append(("msg %s %s %s %s" % (w, t, hx(rest), "o" if _claim[0] else "-"), exp))
     return out
 
+def double_size_cases(tier, rng):
+    """two (or three) fields announce the size of the SAME later field: Component::read keeps the LAST announcement (the
+    crate's ts_bitmap_data: bitmapLength, then bitmapComprHdr); the earlier ones announce other lengths"""
+    out = []
+    for _ in range(60 if tier == "quick" else 3000):
+        _claim[0] = True
+        tname = fresh(rng)
+        body = g_unsized(rng)
+        L = len(body.b)
+        fields = []
+        for wrong in [rng.choice([0, 1, L + 1, L + 5, 2 * L + 3, max(0, L - 1)]) for _ in range(rng.choice([1, 1, 2]))]:
+            sf = size_field(rng, tname, wrong, allow_u32=False)
+            if sf is not None: fields.append((fresh(rng), sf))
+        last = G("d(z%s~x;u16l:%d)" % (tname, L), "d(z%s~x;u16l:0)" % tname, enc_num("u16l", L), str(L), "0", 2, {"size", "x"})
+        fields.append((fresh(rng), last))
+        if rng.random() < 0.5: fields.insert(rng.randrange(len(fields) + 1), (fresh(rng), g_num(rng)))
+        fields.append((tname, body))
+        tail = g_num(rng)
+        fields.append((fresh(rng), tail))
+        w = "c(%s)" % ",".join("%s=%s" % (nm, g.w) for (nm, g) in fields)
+        t = "c(%s)" % ",".join("%s=%s" % (nm, g.t) for (nm, g) in fields)
+        b = b"".join(g.b for (nm, g) in fields)
+        d = "{%s}" % ",".join("%s=%s" % (nm, g.d) for (nm, g) in fields)
+        rest = bytes(rng.randrange(256) for _ in range(rng.choice([0, 3])))
+        exp = "len=%d w=%s r=ok consumed=%d val=%s" % (len(b), hx(b), len(b), d)
+        out.append(("msg %s %s %s -" % (w, t, hx(rest)), exp))
+    return out
+
 def msg_cases(tier, rng):
     n = 10000 if tier == "quick" else 1000000
     out = []
@@ -907,6 +935,7 @@ def gen_cases(tier, rng):
     cases = per_cases(tier, rng)
     for f in EXTRA: cases += f(tier, rng)
     cases += chain_cases(tier, rng)
+    cases += double_size_cases(tier, rng)
     cases += msg_cases(tier, rng)
     return cases
 
